@@ -633,6 +633,202 @@ def oracle_classes(run, beams, n_random):
     return bad, terms, seen
 
 
+# ---------------------------------------------------------------- split after a HISTORY of assignments through the public setters
+# A freshly built element has all its buffers in one dtype.  A magnet setting written later (`corr.angle = torch.tensor(2e-3)`: the
+# default float32 into a float64 element; a float64 value from numpy into a float32 element; a vector of settings) replaces only THAT
+# buffer.  C16's dtype clause is about the element: every piece has the dtype of the element's `length`.
+HIST_KINDS = ["same", "other", "pyfloat", "vector"]
+F64, F32 = "float64", "float32"
+
+
+def _dt(name):
+    return torch.float64 if name == F64 else torch.float32
+
+
+def history_attrs(spec):
+    """assignable tensor attributes of an element spec: its tensor-valued constructor keywords"""
+    return [k for k, v in spec["kw"].items() if k in realgen.TENSOR_KW and v is not None]
+
+
+def gen_history_cases(rng, n_random):
+    """for every class: one single-assignment history per (attribute, kind) -- kinds: a tensor of the element's dtype, of the OTHER float
+    dtype, a Python float, a vectorised value -- for one of the two element dtypes, plus random histories of 2-4 assignments"""
+    out = []
+    for cls in realgen.CLASSES:
+        def fresh():
+            """a random spec of the class carrying EVERY tensor keyword the generator ever gives it (gap_exit ... are optional)"""
+            sp = realgen.gen_element(rng, cls=cls, name="h", length_pool=[0.25, 0.5, 1.0])
+            for _ in range(6):
+                for kk, vv in realgen.gen_element(rng, cls=cls, length_pool=[0.25, 0.5, 1.0])["kw"].items():
+                    if kk in realgen.TENSOR_KW:
+                        sp["kw"].setdefault(kk, vv)
+            return sp
+        attrs = history_attrs(fresh())
+
+        def step(spec, a, kind):
+            v = realgen.gen_element(rng, cls=cls, length_pool=[0.1, 0.25, 0.5, 1.0, 2.0])["kw"].get(a)
+            if v is None:
+                v = spec["kw"].get(a, 0.0)
+            if kind == "vector" and a != "predefined_transfer_map":
+                v = [v, [x * 1.25 for x in v]] if isinstance(v, list) else [v, round(v * 1.25 + (0.01 if a != "frequency" else 0.0), 6)]
+            if kind == "pyfloat" and isinstance(v, list):
+                kind = "other"
+            return {"attr": a, "kind": kind, "value": v}
+        k = 0
+        for a in attrs:
+            for kind in HIST_KINDS:
+                spec = fresh()
+                k += 1
+                out.append({"spec": spec, "dtype": [F64, F32][k % 2], "history": [step(spec, a, kind)], "res": rng.choice(CLS_RES[:3])})
+        for _ in range(n_random if attrs else 0):
+            spec = fresh()
+            hist = [step(spec, rng.choice(attrs), rng.choice(HIST_KINDS)) for _ in range(rng.randrange(2, 5))]
+            out.append({"spec": spec, "dtype": rng.choice([F64, F32]), "history": hist, "res": rng.choice(CLS_RES[:3])})
+    return out
+
+
+def apply_history(e, case):
+    """perform the assignments on the live element; an assignment the setter rejects is an observation (-> 'rejected'), not a failure"""
+    D = _dt(case["dtype"])
+    other = torch.float32 if D == torch.float64 else torch.float64
+    log = []
+    for st in case["history"]:
+        v = st["value"] if st["kind"] == "pyfloat" else torch.tensor(st["value"], dtype=other if st["kind"] == "other" else D)
+        try:
+            setattr(e, st["attr"], v)
+            log.append("assigned")
+        except Exception as ex:
+            log.append(f"rejected: {type(ex).__name__}")
+    return log
+
+
+def _cols(t, cols):
+    return t[..., cols] if cols is not None else t
+
+
+def oracle_history(case, beams_by_dtype):
+    """build -> assign (history) -> split: every float buffer of every piece has the dtype of the element's length, the lengths add up
+    at that dtype's round-off, tracking the pieces in turn works whenever tracking the element works and gives the same beam (a
+    corrector with a length is drift-then-kick: only the momenta are compared).  Returns (failures, info)."""
+    bad = []
+    spec = case["spec"]
+    try:
+        e = realgen.build(spec, dtype=_dt(case["dtype"]))
+    except Exception:
+        return [], {"skipped": "constructor rejects"}
+    log = apply_history(e, case)
+    L = torch.as_tensor(e.length)
+    D = L.dtype
+    info = {"assignments": log, "length_dtype": str(D)}
+    if not D.is_floating_point:
+        return [], info
+    eps = torch.finfo(D).eps
+    try:
+        ps = e.split(torch.tensor(case["res"], dtype=D))
+    except Exception as ex:
+        info["split_raised"] = f"{type(ex).__name__}: {ex}"[:200]
+        ps = None
+    tracked = {}
+    for bname, b in beams_by_dtype[str(D)]:
+        if getattr(e, "tracking_method", "") == "bmadx" and bname != "particle":
+            continue
+        try:
+            whole = e.track(b)
+            if not has_nan(whole):
+                tracked[bname] = (b, whole)
+        except Exception:
+            pass
+    info["element_tracks"] = sorted(tracked)
+    if ps is None:
+        if tracked:
+            bad.append(f"{spec['cls']}.split raised {info['split_raised']} although the element tracks a beam in this state")
+        return bad, info
+    info["n_pieces"] = len(ps)
+    for i, p in enumerate(ps):
+        if p is e:
+            continue
+        wrong = [(k, str(v.dtype)) for k, v in p.named_buffers() if v.is_floating_point() and v.dtype != D]
+        if wrong or torch.as_tensor(p.length).dtype != D:
+            bad.append(f"piece {i} of {len(ps)}: buffers {wrong or [('length', str(torch.as_tensor(p.length).dtype))]} do not have the dtype of "
+                       f"the element's length ({D})")
+            break
+    tot = sum((torch.as_tensor(p.length).double() for p in ps), torch.zeros_like(L, dtype=torch.float64))
+    try:
+        if not bool(torch.all((tot - L.double()).abs() <= 2 * max(1, len(ps)) * eps * L.double().abs())):
+            bad.append(f"piece lengths add up to {tot.tolist()}, the length is {L.tolist()} ({D})")
+    except Exception:
+        bad.append(f"piece lengths {tot.tolist()} cannot be compared with the length {L.tolist()}")
+    thick = _thick_live_corrector(e) and not (len(ps) == 1 and ps[0] is e)
+    cols = [1, 3, 5] if thick else None
+    # round-off: that of the LOWEST float precision among the element's buffers (split() divides a float32 angle in float32 before the
+    # piece casts it to the length's float64)
+    mixed = any(v.is_floating_point() and v.dtype != torch.float64 for v in e.buffers())
+    rtol = 2e-3 if D != torch.float64 else (1e-5 if mixed else 1e-9)
+    for bname, (b, whole) in tracked.items():
+        try:
+            out = b
+            for p in ps:
+                out = p.track(out)
+        except Exception as ex:
+            bad.append(f"tracking the {len(ps)} piece(s) in turn raised {type(ex).__name__}: {ex} -- the element itself tracks this {bname} beam"[:300])
+            continue
+        bo = dict(out.named_buffers())
+        for k, x in whole.named_buffers():
+            y = bo.get(k)
+            if y is None or y.dtype != x.dtype:
+                bad.append(f"{bname} beam behind the pieces: buffer {k} is {None if y is None else y.dtype}, behind the element {x.dtype}")
+                break
+            if thick and k not in ("particles", "_mu"):
+                continue
+            try:
+                xx, yy = torch.broadcast_tensors(_cols(x, cols if k in ("particles", "_mu") else None), _cols(y, cols if k in ("particles", "_mu") else None))
+            except Exception:
+                bad.append(f"{bname} beam behind the pieces: buffer {k} has shape {tuple(y.shape)}, behind the element {tuple(x.shape)}")
+                break
+            if xx.numel() and not float((xx - yy).abs().max()) <= rtol * max(1e-30, float(xx.abs().max())) + 1e-15:
+                bad.append(f"tracking the {len(ps)} piece(s) in turn differs from tracking the {spec['cls']} ({bname} beam, {k}: "
+                           f"{float((xx - yy).abs().max())})")
+                break
+    return bad, info
+
+
+def history_beams(rng):
+    pb, mb = realgen.gen_particle_beam(rng, n=4, energy=2e7), realgen.gen_parameter_beam(rng, energy=1e8)
+    return {str(d): [("particle", realgen.build_beam(pb, dtype=d)), ("parameter", realgen.build_beam(mb, dtype=d))]
+            for d in (torch.float64, torch.float32)}, {"particle": pb, "parameter": mb}
+
+
+def oracle_histories(run, n_random):
+    bad = []
+    beams, beam_specs = history_beams(run.rng)
+    for case in gen_history_cases(run.rng, n_random):
+        fails, info = oracle_history(case, beams)
+        run.add_case(["history", case], info.get("n_pieces", 0) > 1)
+        run.count("history_" + case["spec"]["cls"])
+        for st, lg in zip(case["history"], info.get("assignments", [])):
+            run.count("history_assign_" + st["kind"] + ("_rejected" if lg != "assigned" else ""))
+        run.count("history_pieces_tracked_vs_whole", len(info.get("element_tracks", [])))
+        if "split_raised" in info:
+            run.count("history_split_raised_element_unusable")
+        if info.get("length_dtype") and info["length_dtype"] != str(_dt(case["dtype"])):
+            run.count("history_length_dtype_changed")
+        if fails and not bad:
+            # shrink: drop assignments while it keeps failing
+            small = dict(case)
+            changed = True
+            while changed and len(small["history"]) > 1:
+                changed = False
+                for i in range(len(small["history"])):
+                    t = dict(small, history=small["history"][:i] + small["history"][i + 1:])
+                    if oracle_history(t, beams)[0]:
+                        small, changed = t, True
+                        break
+            f2, i2 = oracle_history(small, beams)
+            bad.append({"kind": "history_case", "case": small, "beams": beam_specs, "failures": f2 or fails, "observed": i2,
+                        "what": f"split() of a {case['spec']['cls']} after assignments through its public setters"})
+    return bad
+
+
 def replay_known(run, beams):
     """replays the stored input of every listed finding.  known + still failing -> KNOWN-FINDING; known + passing -> note (the
     status is stale); fixed + failing again -> VIOLATION (regression) with that input.  Returns the set of ids that regressed."""
@@ -682,7 +878,10 @@ def main(tier, replay=None):
                        "is_active looks at set to zero while the element still acts (Dipole/RBend angle 0 with k1, edge angles, fringe fields; Quadrupole k1 0; "
                        "Solenoid k 0; Cavity / TDC voltage 0; correctors angle 0; vectorised mixes of zero and non-zero strengths) and random parameters: "
                        "whatever split() returns is tracked piece by piece vs the element (both beam types), and its classes / counts are compared with "
-                       "the model by vm_compute (Lattice/SplitClasses.v). Non-trivial = more than one piece; distinct by "
+                       "the model by vm_compute (Lattice/SplitClasses.v). HISTORIES: every class, every tensor attribute re-assigned after construction "
+                       "(float64 and float32 elements) with a tensor of the same dtype, of the OTHER float dtype, a Python float, a vectorised value, "
+                       "singly and in random sequences of 2-4, then split: every float buffer of every piece has the dtype of the element's length, the "
+                       "lengths add up at that dtype's round-off, tracking the pieces in turn works whenever the element tracks and gives the same beam. Non-trivial = more than one piece; distinct by "
                        "case content.")
     # finding F29: while it is listed `known` the faithful model is `split` (the code before the repair); once it is flipped to
     # `fixed` the faithful model is `split_fixed` and a thin corrector that loses its angle is a regression
@@ -763,6 +962,8 @@ def main(tier, replay=None):
     # every class (switched-off corners included): the property on whatever split() returns + which classes slice, vs the model
     cls_bad, cls_terms, cls_seen = oracle_classes(run, beams, 12 if thorough else 2)
     misc_bad = cls_bad + misc_bad            # an input on which the pieces ACT differently comes first
+    # split after a history of assignments (same dtype / the other float dtype / Python float / vectorised), every class
+    misc_bad = misc_bad + oracle_histories(run, 20 if thorough else 3)
     failing_cls = common.run_shards(PID, "classes", PREAMBLE_CLS, cls_terms, "c16_class_check") if cls_terms else []
     run.cov["traces_validated_against_impl"] += len(cls_terms)
     regressed = replay_known(run, beams)
@@ -814,7 +1015,7 @@ def main(tier, replay=None):
 
 def do_replay(run, path):
     r = json.loads(open(path).read())
-    if "case" in r:
+    if "case" in r and r.get("kind") != "history_case":
         beams = [("particle", realgen.build_beam(realgen.gen_particle_beam(run.rng, n=4, energy=2e7))),
                  ("parameter", realgen.build_beam(realgen.gen_parameter_beam(run.rng, energy=1e8)))]
         known, bad = oracle_case(r["case"], run.rng, beams)
@@ -826,6 +1027,11 @@ def do_replay(run, path):
                  ("parameter", realgen.build_beam(realgen.gen_parameter_beam(run.rng, energy=1e8)))]
         bad = oracle_dup_segment(r["lattice"], r["res"], beams)
         print("replay:", "property holds on this input" if not bad else f"property FAILS on this input: {bad}")
+        return 1 if bad else 0
+    if r.get("kind") == "history_case":
+        beams = {str(d): [(k, realgen.build_beam(b, dtype=d)) for k, b in r["beams"].items()] for d in (torch.float64, torch.float32)}
+        bad, info = oracle_history(r["case"], beams)
+        print("replay:", "property holds on this input" if not bad else f"property FAILS on this input: {bad}", info)
         return 1 if bad else 0
     if r.get("kind") == "class_case":
         beams = [("particle", realgen.build_beam(realgen.gen_particle_beam(run.rng, n=4, energy=2e7))),
